@@ -334,3 +334,9 @@ Definition ex_build_checks : list bool :=
          | Some a, Some b => value_eqb a b | _, _ => false end]
     | _ => []
     end) (seq 0 (length ex_history)).
+
+Lemma ex_history_clean : ex_build_checks = [true; true; true; true; true; true].
+Proof. vm_compute. reflexivity. Qed.
+
+Lemma ex_ops_ok : Forall no_rule_op ex_ops /\ Forall (build_ranked ex_rank 5) ex_ops.
+Proof. split; repeat constructor. Qed.
